@@ -396,6 +396,71 @@ func c24Enums(p *an.Prog, r *an.R) {
 					continue
 				}
 				fobj, _ := pk.TypesInfo.Defs[fd.Name].(*types.Func)
+				// an if/else-if chain comparing one expression with constants of a group is a switch written differently
+				chains := map[string]map[*types.Const]bool{}
+				chainPos := map[string]token.Pos{}
+				chainType := map[string]string{}
+				ast.Inspect(fd.Body, func(m ast.Node) bool {
+					is, ok := m.(*ast.IfStmt)
+					if !ok {
+						return true
+					}
+					be, ok := ast.Unparen(is.Cond).(*ast.BinaryExpr)
+					if !ok || be.Op != token.EQL {
+						return true
+					}
+					for _, pr := range [][2]ast.Expr{{be.X, be.Y}, {be.Y, be.X}} {
+						var id *ast.Ident
+						switch x := ast.Unparen(pr[1]).(type) {
+						case *ast.Ident:
+							id = x
+						case *ast.SelectorExpr:
+							id = x.Sel
+						}
+						if id == nil {
+							continue
+						}
+						co, ok := pk.TypesInfo.Uses[id].(*types.Const)
+						if !ok {
+							continue
+						}
+						if _, named := co.Type().(*types.Named); !named {
+							continue
+						}
+						k := types.ExprString(pr[0])
+						if chains[k] == nil {
+							chains[k] = map[*types.Const]bool{}
+							chainPos[k] = is.Pos()
+							chainType[k] = an.TypeName(pk.TypesInfo.TypeOf(pr[0]))
+						}
+						chains[k][co] = true
+					}
+					return true
+				})
+				for k, covered := range chains {
+					if len(covered) < 2 {
+						continue // a single equality test is not an enumeration
+					}
+					var first *types.Const
+					for co := range covered {
+						if first == nil || co.Name() < first.Name() {
+							first = co
+						}
+					}
+					n++
+					for _, g := range constGroup(p, first) {
+						key := fmt.Sprintf("%s/switch(%s)/%s", an.FuncName(fobj), chainType[k], g.Name())
+						if covered[g] {
+							r.OK("C24.R2", key, chainPos[k], "constant has a branch in the if-chain")
+							continue
+						}
+						if g.Pkg().Path() == pbPath && constant.Sign(g.Val()) == 0 {
+							r.OK("C24.R2", key, chainPos[k], "proto zero value (UNSPECIFIED) maps to the Go zero value")
+							continue
+						}
+						r.Bad("C24.R2", key, chainPos[k], fmt.Sprintf("constant %s of the compared group has no branch: it is silently converted to the zero value", g.Name()))
+					}
+				}
 				ast.Inspect(fd.Body, func(m ast.Node) bool {
 					sw, ok := m.(*ast.SwitchStmt)
 					if !ok || sw.Tag == nil {
